@@ -13,14 +13,19 @@ import (
 // C17 — Worker. Encodings shared with checker/ad_worker.ml:
 //
 //	model "workerk" (K1, quiescent view; Model/Worker.v kstep):
-//	  ops:  0 Do (launched in its own goroutine) | 1 h  done() of holder h | 2 k  let instance k's function return
-//	        | 3  Do(nil) / nil receiver (must panic, changes nothing)
-//	  outs: 7 ints = Do calls returned, instances started, instances that saw stop, instance functions returned,
-//	        library goroutines alive above the baseline (watchers + do goroutines + callers blocked in Do),
-//	        Do calls still blocked, 0
+//	  ops:  0 Do (launched in its own goroutine) | 1 h  done() of holder h | 2 k  let instance k's function return (it
+//	        has seen stop) | 3  Do(nil) / nil receiver (must panic, changes nothing) | 4 k  instance k's function
+//	        returns ON ITS OWN, stop still open (it leaves a helper goroutine watching the stop channel)
+//	  outs: 8 ints = Do calls returned, instances started, instance functions that saw stop themselves, instance
+//	        functions returned, library goroutines alive above the baseline (watchers + do goroutines + callers blocked
+//	        in Do), Do calls still blocked, stop channels closed, 0
 //	model "worker" (K2, free running; Model/Worker.v step):
 //	  ops:  0 tag Do | 1 tag done() of the holder returned by Do tag | 2 k  an event of the k-th started instance
-//	  outs: 0 for Do/done; for instance events the phase: 1 function entered, 2 saw stop closed, 3 about to return
+//	        | 3 k  the k-th started instance returns on its own
+//	  outs: 0 for Do/done; for instance events the phase: 1 function entered, 2 saw stop closed, 3 about to return,
+//	        4 returning on its own
+//
+// Every wait of the harness is bounded: a wait that expires is reported as a MONITOR line and the Worker is abandoned.
 const (
 	wkGap       = 120 * time.Microsecond
 	wkDeadline  = 3 * time.Second
@@ -42,11 +47,16 @@ type wkCase struct {
 	saw      atomic.Int32
 	returned atomic.Int32
 	overlap  atomic.Int32
-	gates    []chan struct{} // K1: the function returns only when the harness closes its gate
-	delays   []time.Duration // K2: per instance delay between seeing stop and returning
+	sawFlag  []atomic.Bool   // instance idx saw its stop channel closed itself
+	gates    []chan struct{} // K1: after seeing stop the function returns only when the harness closes its gate
+	earlyG   []chan struct{} // K1: closed by the harness to make the function return on its own
+	modes    []int           // K2: 0 run until stopped | 1 return at once | 2 return on its own after delays[idx]
+	delays   []time.Duration // K2: per instance delay before returning
 	record   bool
 	mu       sync.Mutex
 	recs     []wkRec
+	stops    []<-chan struct{} // the stop channel handed to each started instance
+	heldOn   []chan struct{}   // K2: the stop channels found current by some holder (checked against stops at the end)
 	monitors atomic.Int32
 }
 
@@ -83,26 +93,57 @@ func wkSpin(d time.Duration) {
 // fn is the instance function handed to every Do of the case.
 func (c *wkCase) fn(stop <-chan struct{}) {
 	t0 := tick()
-	idx := int(c.started.Add(1)) - 1
+	c.mu.Lock()
+	idx := len(c.stops)
+	c.stops = append(c.stops, stop)
+	c.mu.Unlock()
+	c.started.Add(1)
 	if n := c.overlap.Add(1); n > 1 {
 		c.monitor("two instance functions running at once: instance %d entered while %d other(s) had not returned", idx, n-1)
 	}
 	c.log(t0, tick(), []int{2, idx}, []int{1})
-	if stop == nil {
-		c.monitor("instance %d was handed a nil stop channel", idx)
+	leave := func() {
 		c.overlap.Add(-1)
 		c.returned.Add(1)
+	}
+	if stop == nil {
+		c.monitor("instance %d was handed a nil stop channel", idx)
+		leave()
 		return
 	}
 	if idx >= wkMaxInst {
 		c.monitor("more than %d instances started", wkMaxInst)
 		<-stop
-		c.overlap.Add(-1)
-		c.returned.Add(1)
+		leave()
 		return
 	}
+	early := func() {
+		// hand the stop channel to a helper whose lifetime is bound to it, then return without waiting for stop
+		go func() { <-stop }()
+		t := tick()
+		leave()
+		c.log(t, tick(), []int{3, idx}, []int{4})
+	}
 	t1 := tick()
-	<-stop
+	switch {
+	case c.modes != nil && c.modes[idx] == 1:
+		early()
+		return
+	case c.modes != nil && c.modes[idx] == 2:
+		wkSpin(c.delays[idx])
+		early()
+		return
+	case c.earlyG != nil:
+		select {
+		case <-stop:
+		case <-c.earlyG[idx]:
+			early()
+			return
+		}
+	default:
+		<-stop
+	}
+	c.sawFlag[idx].Store(true)
 	c.saw.Add(1)
 	c.log(t1, tick(), []int{2, idx}, []int{2})
 	if c.gates != nil {
@@ -111,8 +152,7 @@ func (c *wkCase) fn(stop <-chan struct{}) {
 		wkSpin(c.delays[idx])
 	}
 	t2 := tick()
-	c.overlap.Add(-1)
-	c.returned.Add(1)
+	leave()
 	c.log(t2, tick(), []int{2, idx}, []int{3})
 }
 
@@ -135,27 +175,73 @@ func (c *wkCase) peek() (stop chan struct{}, done chan struct{}, wg *sync.WaitGr
 	}
 }
 
+func (c *wkCase) instanceOf(stop chan struct{}) int {
+	c.mu.Lock()
+	defer c.mu.Unlock()
+	for i, s := range c.stops {
+		if s == (<-chan struct{})(stop) {
+			return i
+		}
+	}
+	return -1
+}
+
 // checkHeld is evaluated by a caller that currently holds the worker (its Do returned, its done not yet called).
-func (c *wkCase) checkHeld(who string) {
+// quiescent: the library is quiescent, so the instance's goroutine must already have been scheduled; otherwise the
+// stop channel is only remembered and matched against the started instances at the end of the case (waiting for the
+// goroutine here would hide late-start bugs).
+func (c *wkCase) checkHeld(who string, quiescent bool) {
 	stop, _, _, ok := c.peek()
 	switch {
 	case !ok:
-		c.monitor("%s: the worker's mutex stayed locked for 150ms while a holder is outstanding", who)
+		c.monitor("%s: the worker's mutex stayed locked for %v while a holder is outstanding", who, wkPeekLimit)
 	case stop == nil:
 		c.monitor("%s: no instance exists (stop is nil) while a holder is outstanding", who)
 	default:
 		select {
 		case <-stop:
 			c.monitor("%s: the stop channel is closed while a holder is outstanding", who)
+			return
 		default:
+		}
+		if !quiescent {
+			c.mu.Lock()
+			if n := len(c.heldOn); n == 0 || c.heldOn[n-1] != stop {
+				c.heldOn = append(c.heldOn, stop)
+			}
+			c.mu.Unlock()
+		} else if c.monitors.Load() == 0 && c.instanceOf(stop) < 0 {
+			c.monitor("%s: Do returned but no instance was started while held (no function has been handed the current stop channel)", who)
 		}
 	}
 }
 
 // checkIdle is evaluated after every holder is done and the library is quiescent.
 func (c *wkCase) checkIdle(base int) {
+	c.mu.Lock()
+	heldOn := append([]chan struct{}(nil), c.heldOn...)
+	c.mu.Unlock()
+	for _, s := range heldOn {
+		if c.instanceOf(s) < 0 {
+			c.monitor("Do returned but no instance was ever started for the stop channel that was current while held")
+			break
+		}
+	}
 	if s, r := int(c.started.Load()), int(c.returned.Load()); s != r {
 		c.monitor("nobody holds the worker but %d of %d started instance functions have not been stopped", s-r, s)
+	}
+	c.mu.Lock()
+	stops := append([]<-chan struct{}(nil), c.stops...)
+	c.mu.Unlock()
+	for i, s := range stops {
+		if s == nil {
+			continue
+		}
+		select {
+		case <-s:
+		default:
+			c.monitor("nobody holds the worker but the stop channel of instance %d was never closed (anything watching it leaks)", i)
+		}
 	}
 	if n := libGoroutineCount(); n != base {
 		c.monitor("nobody holds the worker but %d library goroutine(s) remain above the baseline %d", n-base, base)
@@ -168,13 +254,46 @@ func (c *wkCase) checkIdle(base int) {
 	}
 }
 
-func wkMustPanic(c *wkCase, what string, f func()) {
-	defer func() {
-		if recover() == nil {
-			c.monitor("%s did not panic", what)
+func (c *wkCase) stopsClosed() int {
+	c.mu.Lock()
+	defer c.mu.Unlock()
+	n := 0
+	for _, s := range c.stops {
+		if s == nil {
+			continue
 		}
-	}()
-	f()
+		select {
+		case <-s:
+			n++
+		default:
+		}
+	}
+	return n
+}
+
+// invalidDo calls Do with invalid input in its own goroutine: it must panic promptly (it never needs the mutex).
+func (c *wkCase) invalidDo() {
+	for _, v := range []struct {
+		what string
+		f    func()
+	}{
+		{"Do(nil)", func() { c.w.Do(nil) }},
+		{"(*Worker)(nil).Do", func() { (*Worker)(nil).Do(c.fn) }},
+	} {
+		res := make(chan bool, 1)
+		go func() {
+			defer func() { res <- recover() != nil }()
+			v.f()
+		}()
+		select {
+		case p := <-res:
+			if !p {
+				c.monitor("%s did not panic", v.what)
+			}
+		case <-time.After(wkDeadline):
+			c.monitor("%s neither panicked nor returned within %v (hang)", v.what, wkDeadline)
+		}
+	}
 }
 
 func init() {
@@ -194,9 +313,11 @@ func init() {
 // K1: one harness action at a time, quiescence after each, the observable vector compared with the model's
 // ---------------------------------------------------------------------------------------------------------------
 func wkK1Case(h *hctx, id int) {
-	c := &wkCase{h: h, id: fmt.Sprintf("k1-%d-%d", h.seed, id), w: new(Worker), gates: make([]chan struct{}, wkMaxInst)}
+	c := &wkCase{h: h, id: fmt.Sprintf("k1-%d-%d", h.seed, id), w: new(Worker), gates: make([]chan struct{}, wkMaxInst),
+		earlyG: make([]chan struct{}, wkMaxInst), sawFlag: make([]atomic.Bool, wkMaxInst)}
 	for i := range c.gates {
 		c.gates[i] = make(chan struct{})
+		c.earlyG[i] = make(chan struct{})
 	}
 	if !quiesce(wkGap, wkDeadline) {
 		c.monitor("library not quiescent at case start")
@@ -206,8 +327,19 @@ func wkK1Case(h *hctx, id int) {
 	var fresh []func()
 	var holders []func()
 	var holderDone []bool
-	pending, released, totalDo := 0, 0, 0
+	gateOpen := make([]bool, wkMaxInst)  // gates[i] closed by the harness
+	earlyOpen := make([]bool, wkMaxInst) // earlyG[i] closed by the harness
+	pending, totalDo := 0, 0
 	var ops, outs [][]int
+	outstanding := func() []int {
+		var l []int
+		for i, d := range holderDone {
+			if !d {
+				l = append(l, i)
+			}
+		}
+		return l
+	}
 	observe := func() []int {
 		if !quiesce(wkGap, wkDeadline) {
 			c.monitor("no quiescence within %v", wkDeadline)
@@ -220,17 +352,27 @@ func wkK1Case(h *hctx, id int) {
 		}
 		fresh = nil
 		retMu.Unlock()
+		if len(outstanding()) > 0 {
+			c.checkHeld("at a quiescent point with a holder outstanding", true)
+		}
 		return []int{len(holders), int(c.started.Load()), int(c.saw.Load()), int(c.returned.Load()),
-			libGoroutineCount() - base, pending, 0}
+			libGoroutineCount() - base, pending, c.stopsClosed(), 0}
 	}
-	outstanding := func() []int {
-		var l []int
-		for i, d := range holderDone {
-			if !d {
-				l = append(l, i)
+	// the instance whose function saw stop and waits for its gate / the instance whose function is still running
+	gated := func() int {
+		for i := 0; i < int(c.started.Load()) && i < wkMaxInst; i++ {
+			if c.sawFlag[i].Load() && !gateOpen[i] {
+				return i
 			}
 		}
-		return l
+		return -1
+	}
+	running := func() int {
+		i := int(c.started.Load()) - 1
+		if i >= 0 && i < wkMaxInst && !c.sawFlag[i].Load() && !earlyOpen[i] {
+			return i
+		}
+		return -1
 	}
 	doOp := func() {
 		pending++
@@ -249,38 +391,59 @@ func wkK1Case(h *hctx, id int) {
 		}
 	}
 	doneOp := func(i int) {
-		c.checkHeld(fmt.Sprintf("before done() of holder %d", i))
+		c.checkHeld(fmt.Sprintf("before done() of holder %d", i), true)
 		holders[i]()
 		holderDone[i] = true
 		ops = append(ops, []int{1, i})
 		outs = append(outs, observe())
 		h.count("k1_done", 1)
 	}
-	releaseOp := func() {
-		close(c.gates[released])
-		ops = append(ops, []int{2, released})
-		released++
+	releaseOp := func(i int) {
+		close(c.gates[i])
+		gateOpen[i] = true
+		ops = append(ops, []int{2, i})
 		outs = append(outs, observe())
 		h.count("k1_release", 1)
 	}
+	earlyOp := func(i int) {
+		close(c.earlyG[i])
+		earlyOpen[i] = true
+		ops = append(ops, []int{4, i})
+		outs = append(outs, observe())
+		h.count("k1_early_return", 1)
+		if len(outstanding()) > 0 {
+			h.count("k1_early_return_while_held", 1)
+		}
+	}
+	invalidOp := func(key string) {
+		c.invalidDo()
+		ops = append(ops, []int{3})
+		outs = append(outs, observe())
+		h.count(key, 1)
+	}
+	if h.rng.Intn(3) == 0 {
+		invalidOp("k1_invalid_on_fresh_worker") // a rejected Do on an idle Worker must leave it usable
+	}
 	nops := 5 + h.rng.Intn(16)
-	for k := 0; k < nops; k++ {
+	for k := 0; k < nops && c.monitors.Load() == 0; k++ {
 		out := outstanding()
-		canRelease := int(c.saw.Load()) > released
 		r := h.rng.Intn(100)
+		idle := len(out) == 0 && pending == 0 && gated() < 0 && running() < 0
 		switch {
-		case r < 3:
-			wkMustPanic(c, "Do(nil)", func() { c.w.Do(nil) })
-			wkMustPanic(c, "(*Worker)(nil).Do", func() { (*Worker)(nil).Do(c.fn) })
-			ops = append(ops, []int{3})
-			outs = append(outs, observe())
-			h.count("k1_malformed", 1)
+		case r < 4 || (idle && r < 25):
+			if idle {
+				invalidOp("k1_invalid_on_idle_worker")
+			} else {
+				invalidOp("k1_invalid_in_use")
+			}
 		case r < 40 && totalDo < 14 && pending < 3:
 			doOp()
-		case r < 78 && len(out) > 0:
+		case r < 74 && len(out) > 0:
 			doneOp(out[h.rng.Intn(len(out))])
-		case canRelease:
-			releaseOp()
+		case r < 84 && running() >= 0:
+			earlyOp(running())
+		case gated() >= 0:
+			releaseOp(gated())
 		case totalDo < 14 && pending < 3:
 			doOp()
 		case len(out) > 0:
@@ -288,33 +451,53 @@ func wkK1Case(h *hctx, id int) {
 		}
 	}
 	// drain: call every outstanding done, let every stopped instance return, until nothing is left
-	for guard := 0; guard < 200; guard++ {
+	for guard := 0; guard < 200 && c.monitors.Load() == 0; guard++ {
 		out := outstanding()
 		if len(out) > 0 {
 			doneOp(out[h.rng.Intn(len(out))])
 			continue
 		}
-		if int(c.saw.Load()) > released {
-			releaseOp()
+		if g := gated(); g >= 0 {
+			releaseOp(g)
 			continue
 		}
 		break
 	}
-	if pending != 0 || len(outstanding()) != 0 {
-		c.monitor("drain did not finish: %d Do calls blocked, %d holders outstanding", pending, len(outstanding()))
+	if c.monitors.Load() == 0 {
+		if pending != 0 || len(outstanding()) != 0 {
+			c.monitor("drain did not finish: %d Do calls blocked, %d holders outstanding", pending, len(outstanding()))
+		}
+		c.checkIdle(base)
 	}
-	c.checkIdle(base)
 	if int(c.started.Load()) >= 2 {
 		h.count("k1_cases_with_restart", 1)
 	}
 	h.count("k1_instances", int(c.started.Load()))
 	h.line("K1 workerk %s # %s | %s", c.id, joinRecs(ops), joinRecs(outs))
 	if c.monitors.Load() > 0 {
-		// leave nothing of a broken case behind that could disturb the next one
-		for i := released; i < wkMaxInst; i++ {
-			close(c.gates[i])
+		// abandon this Worker: let whatever can finish finish, so that it disturbs the next case as little as possible
+		for i := 0; i < wkMaxInst; i++ {
+			if !gateOpen[i] {
+				close(c.gates[i])
+			}
+			if !earlyOpen[i] {
+				close(c.earlyG[i])
+			}
+		}
+		retMu.Lock()
+		for _, d := range fresh {
+			holders = append(holders, d)
+			holderDone = append(holderDone, false)
+		}
+		fresh = nil
+		retMu.Unlock()
+		for i, d := range holderDone {
+			if !d {
+				holders[i]()
+			}
 		}
 		quiesce(wkGap, wkDeadline)
+		h.count("k1_abandoned", 1)
 	}
 }
 
@@ -323,6 +506,8 @@ func wkK1Case(h *hctx, id int) {
 // ---------------------------------------------------------------------------------------------------------------
 type wkPlan struct {
 	pre, hold []time.Duration
+	invalid   []bool
+	blind     []bool
 }
 
 func wkDelay(h *hctx) time.Duration {
@@ -338,24 +523,44 @@ func wkDelay(h *hctx) time.Duration {
 
 func wkK2Case(h *hctx, id int) {
 	c := &wkCase{h: h, id: fmt.Sprintf("k2-%d-%d", h.seed, id), w: new(Worker), record: true,
-		delays: make([]time.Duration, wkMaxInst)}
+		delays: make([]time.Duration, wkMaxInst), modes: make([]int, wkMaxInst), sawFlag: make([]atomic.Bool, wkMaxInst)}
+	earlyCase := h.rng.Intn(3) == 0 // in a third of the cases some instance functions return on their own
 	for i := range c.delays {
 		c.delays[i] = wkDelay(h)
+		if earlyCase {
+			switch r := h.rng.Intn(10); {
+			case r < 3:
+				c.modes[i] = 1
+			case r < 6:
+				c.modes[i] = 2
+			}
+		}
+	}
+	if earlyCase {
+		h.count("k2_cases_with_early_returns", 1)
 	}
 	if !quiesce(wkGap, wkDeadline) {
 		c.monitor("library not quiescent at case start")
 	}
 	base := libGoroutineCount()
+	if h.rng.Intn(3) == 0 {
+		c.invalidDo() // a rejected Do on a fresh Worker must leave it usable
+		h.count("k2_invalid_on_fresh_worker", 1)
+	}
 	var wg sync.WaitGroup
 	start := make(chan struct{})
-	hold := func(tag int, pre, dur time.Duration) {
+	hold := func(tag int, pre, dur time.Duration, blind bool) {
 		wkSpin(pre)
 		inv := tick()
 		d := c.w.Do(c.fn)
 		c.log(inv, tick(), []int{0, tag}, []int{0})
-		c.checkHeld(fmt.Sprintf("holder %d after Do", tag))
+		if !blind { // a blind hold does not look at the Worker: Do..done as tight as the plan says
+			c.checkHeld(fmt.Sprintf("holder %d after Do", tag), false)
+		}
 		wkSpin(dur)
-		c.checkHeld(fmt.Sprintf("holder %d before done()", tag))
+		if !blind {
+			c.checkHeld(fmt.Sprintf("holder %d before done()", tag), false)
+		}
 		inv = tick()
 		d()
 		c.log(inv, tick(), []int{1, tag}, []int{0})
@@ -377,13 +582,14 @@ func wkK2Case(h *hctx, id int) {
 			d := c.w.Do(c.fn)
 			c.log(inv, tick(), []int{0, 0}, []int{0})
 			for i, l := range legs {
+				l := l
 				var inner sync.WaitGroup
 				inner.Add(2)
 				next := make(chan func(), 1)
 				go func(d func(), tag int) {
 					defer inner.Done()
 					wkSpin(l.relDelay)
-					c.checkHeld(fmt.Sprintf("holder %d before done()", tag))
+					c.checkHeld(fmt.Sprintf("holder %d before done()", tag), false)
 					inv := tick()
 					d()
 					c.log(inv, tick(), []int{1, tag}, []int{0})
@@ -394,14 +600,14 @@ func wkK2Case(h *hctx, id int) {
 					inv := tick()
 					nd := c.w.Do(c.fn)
 					c.log(inv, tick(), []int{0, tag}, []int{0})
-					c.checkHeld(fmt.Sprintf("holder %d after Do", tag))
+					c.checkHeld(fmt.Sprintf("holder %d after Do", tag), false)
 					next <- nd
 				}(i + 1)
 				inner.Wait()
 				d = <-next
 				wkSpin(l.hold)
 			}
-			c.checkHeld("last holder before done()")
+			c.checkHeld("last holder before done()", false)
 			inv = tick()
 			d()
 			c.log(inv, tick(), []int{1, len(legs)}, []int{0})
@@ -416,6 +622,8 @@ func wkK2Case(h *hctx, id int) {
 			for i := 0; i < iters; i++ {
 				p.pre = append(p.pre, wkDelay(h))
 				p.hold = append(p.hold, wkDelay(h))
+				p.invalid = append(p.invalid, h.rng.Intn(8) == 0)
+				p.blind = append(p.blind, h.rng.Intn(3) == 0)
 			}
 			nholds += iters
 			wg.Add(1)
@@ -423,7 +631,11 @@ func wkK2Case(h *hctx, id int) {
 				defer wg.Done()
 				<-start
 				for i := range p.pre {
-					hold(t*100+i, p.pre[i], p.hold[i])
+					if p.invalid[i] {
+						c.invalidDo() // between two holds the Worker may well be idle
+						h.count("k2_invalid_between_holds", 1)
+					}
+					hold(t*100+i, p.pre[i], p.hold[i], p.blind[i])
 				}
 			}(t, p)
 		}
@@ -434,8 +646,8 @@ func wkK2Case(h *hctx, id int) {
 	go func() { wg.Wait(); close(fin) }()
 	select {
 	case <-fin:
-	case <-time.After(20 * time.Second):
-		c.monitor("holders did not all finish within 20s (a Do or the stop phase hangs)")
+	case <-time.After(4 * wkDeadline):
+		c.monitor("holders did not all finish within %v (a Do or the stop phase hangs)", 4*wkDeadline)
 		return
 	}
 	if !quiesce(wkGap, wkDeadline) {
@@ -444,13 +656,18 @@ func wkK2Case(h *hctx, id int) {
 	c.checkIdle(base)
 	c.mu.Lock()
 	parts := make([]string, len(c.recs))
+	early := 0
 	for i, r := range c.recs {
 		parts[i] = fmt.Sprintf("%d %d : %s : %s", r.inv, r.ret, ints(r.op), ints(r.out))
+		if r.op[0] == 3 {
+			early++
+		}
 	}
 	c.mu.Unlock()
 	h.line("K2 worker %s # %s", c.id, strings.Join(parts, " ; "))
 	h.count("k2_holds", nholds)
 	h.count("k2_instances", int(c.started.Load()))
+	h.count("k2_early_returns", early)
 	if c.started.Load() >= 2 {
 		h.count("k2_cases_with_restart", 1)
 	}
